@@ -50,6 +50,9 @@ def run_A(ck, quals, canaries, prog=None):
     it = iter(reps[len(jobs):])
     ck.absorb_canaries(canaries, [None if j is None else next(it) for j in cjobs])
     ck.trust(*TRUSTED)
+    api = prog.public_api_problems()
+    ck.add_obligation('C', 'package/public_api_is_the_code_under_contract[cm_colors.ColorPair / Color / make_readable_bulk are plain re-exports; no subclass]', 'unknown' if api else 'discharged', 'ast-structure', 0.0, api)
+    if api: ck.undecide('package/public_api_is_the_code_under_contract', '; '.join(api) + ' - the contracts are on the definitions in cm_colors.core, what users import may be something else')
     st = repo_state()
     ck.notes.append(f"repo HEAD {st['head'][:12]} dirty={st['dirty']} source digest {prog.digest()}")
     return reps[:len(jobs)]
